@@ -415,6 +415,9 @@ fn doc_tok_atoms(d: &Delims, n: &Names) -> Vec<String> {
         gen::open_tag(d, n, Kind::Expired, true),
         format!("{} {}", d.ds, d.de),
         format!("{}={}", d.ds, d.de),
+        // several `name` attributes: the first one decides (not a target => not ready)
+        format!("{}{} name=\"b\" name=\"a\"{}", d.ds, n.rm, d.de),
+        gen::close_tag(d, &n.rm),
         d.ds.to_string(),
         d.de.to_string(),
     ] {
@@ -432,6 +435,12 @@ fn case_json(c: &DocCase) -> Value {
 }
 
 fn eval_case(l: &mut Local, p: P, case: &DocCase, sample_ok: bool) {
+    eval_case_after(l, p, case, sample_ok, &[]);
+}
+
+/// `prior`: configurations under which the same source was processed on this thread immediately
+/// before (recorded in the replay so that a history-dependent defect reproduces)
+fn eval_case_after(l: &mut Local, p: P, case: &DocCase, sample_ok: bool, prior: &[&Cfg]) {
     l.eval();
     let h = hash64(&[case.src.as_bytes(), case.ds.as_bytes(), case.de.as_bytes(), case.cfg.now.as_bytes(), &[case.cfg.targets.len() as u8]]);
     l.state(h);
@@ -447,7 +456,11 @@ fn eval_case(l: &mut Local, p: P, case: &DocCase, sample_ok: bool) {
         l.violation(Violation {
             prop: p.id().into(),
             class,
-            case: case_json(case),
+            case: {
+                let mut cj = case_json(case);
+                cj["prior"] = json!(prior.iter().map(|c| c.to_json()).collect::<Vec<_>>());
+                cj
+            },
             detail,
         });
     } else if sample_ok && res.nontrivial && l.r.samples_len() < 8 {
@@ -528,12 +541,14 @@ pub fn run(r: &Report, p: P) {
                             if ci == 0 && final_newline {
                                 // the same source again on the same thread under configurations
                                 // where nothing / everything is ready (no state may survive a call)
+                                let mut prior: Vec<&Cfg> = vec![&cfg];
                                 for c2 in [&cfg_none, &cfg_all] {
                                     let case2 = DocCase {
                                         cfg: (*c2).clone(),
                                         ..case.clone()
                                     };
-                                    eval_case(l, p, &case2, false);
+                                    eval_case_after(l, p, &case2, false, &prior);
+                                    prior.push(c2);
                                 }
                             }
                         }
@@ -589,6 +604,30 @@ pub fn run(r: &Report, p: P) {
             counted,
         );
     }
+    // ---- phase 4: tags on unwrap wrapper lines --------------------------------------------
+    if !r.stopped() {
+        for &pair in &[0usize, 1] {
+            let d = &gen::POOL[pair];
+            let single = crate::explore::count_choices(|ch| touching_family(ch, d, &names));
+            let counted = explore_choices(
+                |ch: &mut Chooser| touching_family(ch, d, &names),
+                4,
+                || r.local(),
+                |l: &mut Local, src: String, tr| {
+                    l.transition(tr.len() as u64);
+                    let case = DocCase {
+                        src,
+                        ds: d.ds.into(),
+                        de: d.de.into(),
+                        cfg: cfg.clone(),
+                    };
+                    eval_case(l, p, &case, false);
+                },
+                &|| r.stopped(),
+            );
+            r.expect_count(&format!("touching-children family {:?}/{:?}", d.ds, d.de), single, counted);
+        }
+    }
     // ---- phase 3: G-tok with macro atoms ------------------------------------------------
     for &pair in &b.tok_pairs {
         if r.stopped() {
@@ -623,11 +662,87 @@ pub fn run(r: &Report, p: P) {
     }
 }
 
+/// Phase 4: tags sitting on the wrapper lines of an unwrap-block (C01's "tags on wrapper lines"),
+/// with kept lines of varying indentation and a later removal behind the block.
+pub fn touching_family(ch: &mut Chooser, d: &Delims, n: &Names) -> String {
+    let o = |k: Kind, u: bool| gen::open_tag(d, n, k, u);
+    let c = gen::close_tag(d, &n.tl);
+    let child_kind = *ch.pick(&[Kind::Expired, Kind::Future]);
+    let parent_kind = *ch.pick(&[Kind::Expired, Kind::Future]);
+    let tind = ["", "  "][ch.choose(2)];
+    let mut lines: Vec<String> = vec![];
+    if ch.flag() {
+        lines.push("head();".into());
+    }
+    lines.push(format!("{tind}{}", o(parent_kind, true)));
+    // where the child sits: 0 inline on the opening wrapper line, 1 opening tag on the opening
+    // wrapper line and closing tag on a body line, 2 inline on the closing wrapper line,
+    // 3 from the opening wrapper line to the closing wrapper line, 4 on the parent's tag line
+    let place = ch.choose(5);
+    match place {
+        0 => lines.push(format!("{tind}if (a) {{ {} legacy(); {}", o(child_kind, false), c)),
+        1 | 3 => lines.push(format!("{tind}if (a) {{ {}", o(child_kind, false))),
+        4 => {
+            let l = lines.pop().unwrap();
+            lines.push(format!("{l} {} x(); {}", o(child_kind, false), c));
+            lines.push(format!("{tind}if (a) {{"));
+        }
+        _ => lines.push(format!("{tind}if (a) {{")),
+    }
+    let nbody = ch.choose(3);
+    for i in 0..nbody {
+        lines.push(format!("{tind}    body{i}();"));
+    }
+    if place == 1 {
+        lines.push(format!("{tind}    {c}"));
+    }
+    match place {
+        2 => lines.push(format!("{tind}}} {} tail(); {}", o(child_kind, false), c)),
+        3 => lines.push(format!("{tind}{c} }}")),
+        _ => lines.push(format!("{tind}}}")),
+    }
+    lines.push(format!("{tind}{c}"));
+    // kept lines behind the block: first at indent 0..1, then deeper / shallower ones
+    let nkept = ch.choose(4);
+    for i in 0..nkept {
+        let ind = ["", "  ", "      "][ch.choose(3)];
+        lines.push(format!("{ind}kept{i}();"));
+    }
+    // a later removal
+    match ch.choose(3) {
+        0 => {}
+        1 => {
+            lines.push(o(Kind::Expired, false));
+            lines.push("  late();".into());
+            lines.push(c.clone());
+        }
+        _ => lines.push(format!("z(); {} late(); {} w();", o(Kind::Expired, false), c)),
+    }
+    if ch.flag() {
+        lines.push("    end();".into());
+    }
+    lines.join("\n") + "\n"
+}
+
 pub fn replay(prop: &str, case: &Value) -> Vec<Violation> {
     let (Some(p), Some(c)) = (P::parse(prop), DocCase::from_json(case)) else {
         return vec![];
     };
-    let res = check_doc(&c, p);
+    let prior: Vec<Cfg> = case["prior"]
+        .as_array()
+        .map(|a| a.iter().filter_map(Cfg::from_json).collect())
+        .unwrap_or_default();
+    // a fresh thread (fresh thread-local state), the recorded history first, then the case
+    let res = std::thread::scope(|sc| {
+        sc.spawn(|| {
+            for pc in &prior {
+                let _ = check_doc(&DocCase { cfg: pc.clone(), ..c.clone() }, p);
+            }
+            check_doc(&c, p)
+        })
+        .join()
+    });
+    let Ok(res) = res else { return vec![] };
     res.viol
         .map(|(class, detail)| Violation {
             prop: prop.into(),
